@@ -56,6 +56,8 @@ func (g *cg) datum() gen.Val {
 	}
 }
 
+const nestedPanicSrc = "(list 1) (host-panic \"nested\")"
+
 func (g *cg) raise() gen.Val {
 	switch g.n(0, 9, "raise") {
 	case 0:
@@ -68,6 +70,11 @@ func (g *cg) raise() gen.Val {
 		return gen.S("undefined-variable")
 	case 3:
 		return gen.Call("car", gen.I(1))
+	case 5:
+		// a host panic that crosses a nested load keeps being a panic
+		g.stats["host-panic"]++
+		g.stats["host-panic-through-load"]++
+		return gen.Call("load-string", gen.Str(nestedPanicSrc))
 	case 4:
 		// the condition argument is not a symbol: an ordinary error about that
 		g.stats["non-symbol-condition"]++
@@ -223,6 +230,11 @@ func check(cs Case, c *vcommon.Ctx) *vcommon.Failure {
 	forms := make([]*refint.V, len(cs.P.Forms))
 	for i, f := range cs.P.Forms {
 		forms[i] = refint.FromVal(f, &pos)
+	}
+	{
+		np := 0
+		in.Sources = map[string][]*refint.V{nestedPanicSrc: {
+			refint.FromVal(gen.Call("list", gen.I(1)), &np), refint.FromVal(gen.Call("host-panic", gen.Str("nested")), &np)}}
 	}
 	rv, rerr, abort := in.Run(forms)
 	if abort != "" || in.Unsupported != "" {
